@@ -40,7 +40,10 @@ pub struct TlsCase {
 
 pub fn run_tls(m: &TlsMaterial, c: &TlsCase) -> Result<TlsObs, String> {
     let cfg = m.client_config(c.tls13, c.with_cert)?;
-    let conn = rustls::ClientConnection::new(cfg, tls::server_name()).map_err(|e| e.to_string())?;
+    let mut conn = rustls::ClientConnection::new(cfg, tls::server_name()).map_err(|e| e.to_string())?;
+    // the scripted client queues its whole plaintext at once; rustls' default 64 KiB limit is a
+    // property of this harness's client, not of the server under test
+    conn.set_buffer_limit(None);
     let caps = 0x003f_a685 | wire::CLIENT_SSL;
     let sslreq = wire::ssl_request(caps, 1 << 24, 0x21);
     let (mut app, _) = wire::frame(&wire::handshake41(caps, 1 << 24, 0x21, &c.user, b"\0"), c.seqs.1);
@@ -365,6 +368,44 @@ pub fn run(ctx: &Ctx) -> Report {
         rep.counters.class(format!("reads={} tls1.{} cert={} mode={} wl={}", cyc_name, if tls13 { 3 } else { 2 }, with_cert, mode, if wl == usize::MAX { "inf".into() } else { wl.to_string() }));
         let d = || J::obj().set("read_sizes", cyc_name).set("first_read_bytes", first_cut).set("write_limit", if wl == usize::MAX { -1 } else { wl as i64 }).set("tls", if tls13 { "1.3" } else { "1.2" }).set("client_cert", with_cert).set("server_client_auth", ["optional", "required", "none", "no tls"][mode as usize]).set("commands", kinds_summary(&c.cmds)).set("ended_by", if close_notify { "close_notify" } else { "QUIT" }).set("outcome", o.outcome.describe());
         if i < 2 {
+            rep.sample(d());
+        }
+        judge(mref, &c, &o, rep, &d);
+    });
+    rep.merge(r);
+
+    // ---- (b2) long mixed histories (the shared mega workload) over TLS: everything the client decrypts
+    //      must equal what the same script yields over plaintext
+    let n = ctx.n(300, 10_000);
+    let r = par_cases(ctx, "C18", "mega-over-tls", n, |rng, i, rep| {
+        let mut m = super::mega::generate(rng, 30);
+        let mut tries = 0;
+        while m.conv.over() && tries < 20 {
+            m = super::mega::generate(rng, 30);
+            tries += 1;
+        }
+        if m.conv.over() {
+            return;
+        }
+        let wl = *rng.pick(&[usize::MAX, usize::MAX, 1000, 7]);
+        let mut cmds = m.conv.cmds();
+        let close_notify = rng.bool();
+        if !close_notify {
+            cmds.push(Cmd::quit());
+        }
+        let c = TlsCase { tls13: rng.bool(), with_cert: rng.bool(), server_mode: 0, user: CANARY_USER.to_vec(), cmds, scripts: m.conv.scripts.clone(), first_cut: if rng.bool() { rng.range(1, 60) as usize } else { 0 }, cycle: if rng.bool() { vec![] } else { vec![rng.range(1, 2000) as usize] }, write_limit: wl, close_notify, app_override: None, seqs: (1, 2) };
+        let o = match run_tls(mref, &c) {
+            Ok(o) => o,
+            Err(e) => {
+                rep.inconclusive.push(format!("TLS harness error: {}", e));
+                return;
+            }
+        };
+        rep.evaluations += 1;
+        rep.counters.inc("mega_conversations_over_tls");
+        rep.counters.class(format!("mega over tls1.{} wl={}", if c.tls13 { 3 } else { 2 }, if wl == usize::MAX { "inf".into() } else { wl.to_string() }));
+        let d = || J::obj().set("workload", "mega conversation over TLS").set("history", m.desc.clone()).set("write_limit", if wl == usize::MAX { -1 } else { wl as i64 }).set("tls", if c.tls13 { "1.3" } else { "1.2" }).set("outcome", o.outcome.describe());
+        if i == 0 {
             rep.sample(d());
         }
         judge(mref, &c, &o, rep, &d);
